@@ -5,7 +5,7 @@ streams produced by the encoders in this directory.  Used by selftest.py; also h
     lh = Lhasa()
     outs = lh.decode([("-lh5-", stream_bytes, declared_len), ...])   # -> list of Result
 """
-import json, os, shutil, subprocess, sys, tempfile
+import json, os, shutil, subprocess, sys, tempfile, time
 
 HERE = os.path.dirname(os.path.abspath(__file__))
 PYDIR = os.path.dirname(HERE)
@@ -35,7 +35,7 @@ class Lhasa:
         # we run, so keep a private copy of the driver binary.
         cwd = os.getcwd()
         last = None
-        for _ in range(3):
+        for _ in range(5):
             try:
                 os.chdir(V.ROOT)
                 exe = V.build_driver("decoder_drv", variant)
@@ -45,6 +45,7 @@ class Lhasa:
                 break
             except (OSError, V.HarnessError) as e:
                 last = e
+                time.sleep(3)
             finally:
                 os.chdir(cwd)
         if last is not None:
